@@ -78,11 +78,18 @@ func scenC08(run *vlab.Run, sx, tmp string) {
 			continue
 		}
 		bits := 26 + rng.Intn(3)
+		big := i%6 == 5 // a /24 with a port that nobody listens on: hundreds of failing probes within a second
+		if big {
+			bits = 24
+		}
 		base := uint32(0x7f000000) | uint32(1+rng.Intn(200))<<16 | uint32(rng.Intn(256))<<8
 		base &^= 1<<uint(32-bits) - 1
 		subnet := fmt.Sprintf("%s/%d", ipS(base), bits)
 		size := uint32(1) << uint(32-bits)
 		nports := 1 + rng.Intn(3)
+		if big {
+			nports = 2
+		}
 		var ports []int
 		var lns []net.Listener
 		closedPort := 0
@@ -92,7 +99,7 @@ func scenC08(run *vlab.Run, sx, tmp string) {
 		}
 		for k := 0; k < nports; k++ {
 			p := 20000 + rng.Intn(20000)
-			if k == nports-1 && nports > 1 && rng.Intn(2) == 0 {
+			if k == nports-1 && nports > 1 && (rng.Intn(2) == 0 || big) {
 				closedPort = p // nobody listens: connection refused -> one error record per address
 				ports = append(ports, p)
 				continue
@@ -113,6 +120,9 @@ func scenC08(run *vlab.Run, sx, tmp string) {
 			ps = append(ps, fmt.Sprint(p))
 		}
 		workers := []int{1, 3, 16, 100}[rng.Intn(4)]
+		if big {
+			workers = 100
+		}
 		args := []string{"socks", "--json", "-p", strings.Join(ps, ","), "-w", fmt.Sprint(workers), "-t", "3s", subnet}
 		run.Case(fmt.Sprintf("c08w%03d", i), args)
 		// a probe that times out against this monitor's own listeners (a starved machine) changes the expected
@@ -218,6 +228,9 @@ func scenC08(run *vlab.Run, sx, tmp string) {
 				run.Count("app_scans_ok", 1)
 			}
 			run.Count("c08_wire_runs", 1)
+			if big {
+				run.Count("c08_wire_runs_with_more_than_100_failing_probes", 1)
+			}
 			run.Count("app_targets", int64(int(size)*len(ports)))
 			run.Count("app_error_records", int64(nErrLines))
 			run.Count("app_workers:"+fmt.Sprint(workers), 1)
